@@ -64,6 +64,9 @@ impl CodeStatement for Statement {
             + ParallelMoves<Code, Temporary>
             + Utils<Temporary>,
     {
+        #[cfg(feature = "verif")]
+        instructions.push(Backend::comment(verif_env_marker(&context)));
+
         match self {
             Statement::Substitute(substitute) => {
                 substitute.code_statement::<Backend, _, _, _>(types, context, instructions);
@@ -104,4 +107,22 @@ impl CodeStatement for Statement {
             }
         }
     }
+}
+
+/// Verification hook: renders the environment the code generator assumes at a statement boundary
+/// as `@env <n> <id>:<p|c|e> ...` (ids and chiralities only). It is emitted as an ordinary
+/// assembly comment and hence does not change the generated machine code.
+#[cfg(feature = "verif")]
+fn verif_env_marker(context: &TypingContext) -> String {
+    use axcut::syntax::Chirality;
+    let mut marker = format!("@env {}", context.bindings.len());
+    for binding in &context.bindings {
+        let chirality = match binding.chi {
+            Chirality::Prd => 'p',
+            Chirality::Cns => 'c',
+            Chirality::Ext => 'e',
+        };
+        marker.push_str(&format!(" {}:{chirality}", binding.var.id));
+    }
+    marker
 }
